@@ -8,7 +8,11 @@
    the binding's own Synchronization run (another binding's includeSnapshotsFrom in another
    queue, an admission hook, the debug endpoint) that reads the still-locked binding empties
    its buffer (recorded finding F23).  C01_no_loss_partial is the full statement outside
-   that trigger.  Model = the code after the repairs c7c31b7 (R3) and 4541787 (R1). *)
+   that trigger.  Model = the code after the repairs c7c31b7 (R3) and 4541787 (R1).
+
+   Further down: the monitor level (C01_Monitor: one namespace appearing against the unlock),
+   the operator level (Op_Model / C01_OpSpec) and the history level (C01_Hist: events of a
+   namespace.labelSelector binding over histories of namespaces and objects). *)
 From Verif Require Import Common C01_Model C01_Spec C01_Corr C01_Proofs.
 Open Scope N_scope.
 
@@ -119,3 +123,69 @@ Example C01_op_hyp_met :
   Op_Corr.so_execs (nth 18%nat obs Op_Spec.empty_obs)
   = [Op_Corr.mkEO 0 1 [(1, 2, 0, 3)]; Op_Corr.mkEO 6 3 [(7, 2, 0, 7)]].
 Proof. vm_compute. repeat split. Qed.
+
+(* ---- namespace.labelSelector over histories of namespaces and objects: C01_Hist ---- *)
+From Verif Require Import C02_Model C02_DynProofs C01_Hist C01_HistSpec C01_HistProofs.
+
+(* The statement about the code path, for EVERY configuration (names, event types, jqFilter),
+   EVERY initial cluster and EVERY history of object create / modify / delete and namespace
+   create / relabel / delete (initial namespaces and late ones, stopping to match and matching
+   again any number of times), no hypothesis: after the unlock the monitor hands over exactly
+   the Events of the changes of objects that match AT THAT MOMENT - one per change that passes
+   the event-type and change filters, in the order of the changes, nothing for namespaces that
+   do not match.  (The reference [changes_only] walks the cluster alone; the model walks the
+   informer set: VaryingInformers / cancelForNs, the add and delete callbacks, the caches.) *)
+Theorem C01_hist_events_exact : forall i, hist_out i = changes_only i.
+Proof. exact hist_events_exact. Qed.
+Print Assumptions C01_hist_events_exact.
+
+(* the informer set behind it: after any history the namespaces that have running informers
+   are exactly the namespaces that match now - a namespace of the start-up list that stopped
+   matching and matches again is watched again *)
+Theorem C01_hist_informers_follow_matching : forall i ops ns,
+  let st := fold_left (dstep (h_names i)) (map dop_of ops) (hist_init i) in
+  In ns (map fst (dm_vary (snd st))) <-> ns_lab ns (snd (fst st)) = true.
+Proof. exact hist_informers_follow_matching. Qed.
+Print Assumptions C01_hist_informers_follow_matching.
+
+(* the Spec predicate HP (which also wants the objects a namespace BRINGS ALONG reported as
+   Added) holds of the model for every history in which no step brings objects along ... *)
+Definition C01_hist_full_statement : Prop := forall i, HP i (mkHOb (hist_out i) 0 false) = true.
+
+Theorem C01_hist_partial : forall i, HT i = false -> HP i (mkHOb (hist_out i) 0 false) = true.
+Proof. exact hist_P_partial. Qed.
+Print Assumptions C01_hist_partial.
+
+(* ... and fails when one does: the recorded finding F24 on a history.  By
+   C01_hist_events_exact this is ALL F24 costs: every change made after the namespace's
+   informers exist is reported, also a change of an object that was brought along. *)
+Theorem C01_hist_refuted_F24 : exists i, HT i = true /\ HP i (mkHOb (hist_out i) 0 false) = false.
+Proof. exact hist_refuted_F24. Qed.
+Print Assumptions C01_hist_refuted_F24.
+
+(* non-vacuity: namespace 1 is in the start-up list (with an object of the Synchronization
+   view), namespace 2 exists without the label, namespace 3 appears later; 1 is emptied and
+   deleted, created again, an object appears in it; 2 gains the label while empty, loses it,
+   a change in it meanwhile is not reported, gains it again after the object is gone; a
+   modification outside the jqFilter (11 -> 21) is not reported.  HT is false and the Events
+   are the ten listed ones. *)
+Example C01_hist_hyp_met :
+  let i := mkHistIn [] [Added; Modified; Deleted] true [(1, 1, 1)] [(1, true); (2, false)]
+             [HSet (1, 2, 5); HSet (1, 1, 2); HDel 1 1; HDel 1 2; HNsDel 1; HNs 3 true; HSet (3, 1, 11);
+              HNs 1 true; HSet (1, 3, 4); HSet (3, 1, 21); HNs 2 true; HSet (2, 1, 7); HNs 2 false;
+              HSet (2, 1, 8); HDel 2 1; HNs 2 true; HSet (2, 2, 9); HSet (3, 1, 22); HDel 3 1] in
+  HT i = false /\
+  hist_out i = [(1, 2, Added, 5); (1, 1, Modified, 2); (1, 1, Deleted, 2); (1, 2, Deleted, 5);
+                (3, 1, Added, 11); (1, 3, Added, 4); (2, 1, Added, 7); (2, 2, Added, 9);
+                (3, 1, Modified, 22); (3, 1, Deleted, 22)].
+Proof. vm_compute. split; reflexivity. Qed.
+
+(* REMARK (not a theorem about P; reported to the lead): the mirror image of F24.  When a
+   namespace STOPS matching while it holds selected objects, its informers are cancelled and
+   nothing is fired: the hook is never told that these objects left the matching set.  HP
+   does not demand Deleted Events there (the objects did not change), so the last clause of
+   the property text - "applying the delivered Events on top of the Synchronization view
+   reproduces the final matching state" - does not hold for such histories either. *)
+Example C01_hist_ns_stop_is_silent :
+  hist_out (mkHistIn [] [Added; Modified; Deleted] false [(1, 1, 1)] [(1, true)] [HNs 1 false]) = [].
+Proof. vm_compute. reflexivity. Qed.
